@@ -153,6 +153,10 @@ package wasp
 // acknowledgement packets only consult the in-flight table; at most one forward can result (the PUBREL callback)
 //@   ensures typeis(pkt, *packet.PubAck) || typeis(pkt, *packet.PubRec) || typeis(pkt, *packet.PubRel) || typeis(pkt, *packet.PubComp)
 //@             ==> #ackCalls == old(#ackCalls) + 1 && #handed <= old(#handed) + 1 && err == nil
+// C12: a keep-alive ping is answered only while the client identifier still resolves to THIS session; otherwise (the client has
+// reconnected elsewhere, or its record is gone) the session is told to end and nothing is written
+//@   ensures [C12] typeis(pkt, *packet.PingReq) && !(#lastLookupFound && #lastLookupSession == session.id) ==> err == ErrSessionDisconnected && #wire[13] == old(#wire)[13]
+//@   ensures [C12] typeis(pkt, *packet.PingReq) && #lastLookupFound && #lastLookupSession == session.id ==> #wire[13] == old(#wire)[13] + 1
 // C17: the topic of an inbound publish (a will included) is moved into the session's mount point before anything else sees it
 //@   ensures [C17] typeis(pkt, *packet.Publish) ==> prefixed(session.mountPoint, old(unbox(pkt, *packet.Publish).Topic), unbox(pkt, *packet.Publish).Topic)
 // C11: Process reports an error (which ends the session) only for the causes the protocol allows
@@ -163,20 +167,42 @@ package wasp
 //@   modifies #writerSends
 //@   ensures #writerSends == old(#writerSends) + 1
 
+// C17: every filter of a SUBSCRIBE / UNSUBSCRIBE is moved into the session's mount point first (the slice made by
+// PrefixMountPoint from filter number j of the packet is remembered in #pfxSrc, keyed by its backing row), and only those prefixed slices reach the subscription index, the
+// session's own list and the retained-message lookup
+//@ ghost-after (*packetProcessor).Process call (*github.com/vx-labs/wasp/v4/wasp/sessions.Session).PrefixMountPoint
+//@   set #pfxSrc := update(#pfxSrc, base(result), idx)
+//@ pred pfx_of(out []byte, j int) := base(out) != 0 && #pfxSrc[base(out)] == j
 //@ loop (*packetProcessor).Process#1
 //@   invariant -1 <= rangeindex && rangeindex < len(p.Topic) && len(topics) == len(p.Topic)
 //@   invariant fresh(topics) && topics_nodup(session)
+//@   invariant forall j int :: {topics[j]} 0 <= j && j <= rangeindex ==> pfx_of(topics[j], j)
 //@ loop (*packetProcessor).Process#2
-//@   invariant -1 <= rangeindex && rangeindex < len(topics) && len(topics) == len(p.Topic) && topics_nodup(session)
+//@   invariant -1 <= rangeindex && rangeindex < len(topics) && len(topics) == len(p.Topic) && topics_nodup(session) && fresh(topics) && base(session.topics) != base(topics)
+//@   invariant forall j int :: {topics[j]} 0 <= j && j < len(topics) ==> pfx_of(topics[j], j)
 //@ loop (*packetProcessor).Process#3
-//@   invariant -1 <= rangeindex && rangeindex < len(topics) && len(topics) == len(p.Topic) && topics_nodup(session)
+//@   invariant -1 <= rangeindex && rangeindex < len(topics) && len(topics) == len(p.Topic) && topics_nodup(session) && fresh(topics) && base(session.topics) != base(topics)
+//@   invariant forall j int :: {topics[j]} 0 <= j && j < len(topics) ==> pfx_of(topics[j], j)
+//@ callsite (*packetProcessor).Process -> (distributed.SubscriptionsState).Create(st distributed.SubscriptionsState, sessionID string, pattern []byte, qos int32)
+//@   requires [C17] sessionID == session.id && pfx_of(pattern, idx) && qos == p.Qos[idx]
+//@ callsite (*packetProcessor).Process -> (*github.com/vx-labs/wasp/v4/wasp/sessions.Session).AddTopic(sess *sessions.Session, t []byte)
+//@   requires [C17] sess == session && pfx_of(t, idx)
+//@ callsite (*packetProcessor).Process -> (distributed.TopicsState).Get(ts distributed.TopicsState, pattern []byte)
+//@   requires [C17] pfx_of(pattern, idx)
+//@ callsite (*packetProcessor).Process -> (distributed.SubscriptionsState).Delete(st distributed.SubscriptionsState, sessionID string, pattern []byte)
+//@   requires [C17] sessionID == session.id && pfx_of(pattern, idx)
+//@ callsite (*packetProcessor).Process -> (*github.com/vx-labs/wasp/v4/wasp/sessions.Session).RemoveTopic(sess *sessions.Session, t []byte)
+//@   requires [C17] sess == session && pfx_of(t, idx)
 //@ loop (*packetProcessor).Process#4
-//@   invariant -1 <= rangeindex && rangeindex < len(messages) && topics_nodup(session)
+//@   invariant -1 <= rangeindex && rangeindex < len(messages) && topics_nodup(session) && len(topics) == len(p.Topic) && fresh(topics) && base(session.topics) != base(topics)
+//@   invariant forall j int :: {topics[j]} 0 <= j && j < len(topics) ==> pfx_of(topics[j], j)
 //@ loop (*packetProcessor).Process#5
 //@   invariant -1 <= rangeindex && rangeindex < len(p.Topic) && len(topics) == len(p.Topic)
 //@   invariant fresh(topics) && topics_nodup(session)
+//@   invariant forall j int :: {topics[j]} 0 <= j && j <= rangeindex ==> pfx_of(topics[j], j)
 //@ loop (*packetProcessor).Process#6
-//@   invariant -1 <= rangeindex && rangeindex < len(topics) && len(topics) == len(p.Topic) && topics_nodup(session)
+//@   invariant -1 <= rangeindex && rangeindex < len(topics) && len(topics) == len(p.Topic) && topics_nodup(session) && fresh(topics) && base(session.topics) != base(topics)
+//@   invariant forall j int :: {topics[j]} 0 <= j && j < len(topics) ==> pfx_of(topics[j], j)
 
 // closures of Process ------------------------------------------------------------------------------
 // QoS 0/1 acknowledgement callback: one PUBACK with the publish's identifier for QoS 1, nothing for QoS 0
@@ -235,6 +261,7 @@ package wasp
 //@   ensures err == nil ==> pool_out(w.midPool, r)
 //@   ensures forall x int32 :: x != r && x != 0 ==> (pool_out(w.midPool, x) <==> old(pool_out(w.midPool, x)))
 //@   ensures err != nil ==> (forall x int32 :: x != 0 ==> (pool_out(w.midPool, x) <==> old(pool_out(w.midPool, x))))
+//@   records #getFreeFails := old(#getFreeFails) + (if err != nil then 1 else 0)
 //@ loop (*writer).getFree#1
 //@   invariant pool_ok(w.midPool) && unbox(w.midPool, *simpleMidPool).min == 0 && unbox(w.midPool, *simpleMidPool).max == 65535
 //@   invariant forall x int32 :: x != 0 ==> (pool_out(w.midPool, x) <==> old(pool_out(w.midPool, x)))
@@ -331,7 +358,21 @@ package wasp
 //@   ensures forall t int :: t != 3 ==> #wire[t] == old(#wire)[t]
 // C03/C06: no identifier leaks: whatever is newly outstanding afterwards belongs to a delivery registered in flight
 //@   ensures forall x int32 :: pool_out(w.midPool, x) ==> old(pool_out(w.midPool, x)) || x == 0 || #pending[x]
+// C01: every recipient that has a session on this node gets exactly one delivery attempt, the others none (the attempts stop
+// early only when no packet identifier can be obtained: pool exhausted for 5 s or context cancelled)
+//@   ensures [C01] p != nil && #getFreeFails == old(#getFreeFails) ==> (forall i int :: {recipients[i]} {#attemptN[i]} 0 <= i && i < len(recipients) ==> #attemptN[i] == old(#attemptN)[i] + (if #registry[recipients[i]] != 0 && 0 <= qosses[i] && qosses[i] <= 2 then 1 else 0))
+//@   ensures [C01] forall i int :: {#attemptN[i]} #attemptN[i] <= old(#attemptN)[i] + 1 && #attemptN[i] >= old(#attemptN)[i]
+//@ ghost-after (*writer).send call (*github.com/vx-labs/mqtt-protocol/encoder.Encoder).Publish
+//@   set #attemptN := update(#attemptN, idx, #attemptN[idx] + 1)
+//@ ghost-after (*writer).send call (*writer).sendQoS1
+//@   set #attemptN := update(#attemptN, idx, #attemptN[idx] + 1)
+//@ ghost-after (*writer).send call (*writer).sendQoS2
+//@   set #attemptN := update(#attemptN, idx, #attemptN[idx] + 1)
 //@ loop (*writer).send#1
+//@   invariant #getFreeFails == old(#getFreeFails)
+//@   invariant forall i int :: {recipients[i]} {#attemptN[i]} 0 <= i && i <= rangeindex ==> #attemptN[i] == old(#attemptN)[i] + (if #registry[recipients[i]] != 0 && 0 <= qosses[i] && qosses[i] <= 2 then 1 else 0)
+//@   invariant forall i int :: {#attemptN[i]} i > rangeindex || i < 0 ==> #attemptN[i] == old(#attemptN)[i]
+//@   invariant forall i int :: {#attemptN[i]} #attemptN[i] <= old(#attemptN)[i] + 1 && #attemptN[i] >= old(#attemptN)[i]
 //@   invariant forall x int32 :: pool_out(w.midPool, x) ==> old(pool_out(w.midPool, x)) || x == 0 || #pending[x]
 //@   invariant forall x int32 :: old(#pending)[x] ==> #pending[x]
 //@   invariant -1 <= rangeindex && rangeindex < len(recipients) && wf_writer(w) && send_ok(w, recipients, p) && p != nil && p.Header != nil
@@ -361,10 +402,17 @@ package wasp
 //@ chan RoutedMessage(v)
 //@   invariant !v.fromLog ==> v.publish != nil && v.publish.Header != nil && len(v.qosses) == len(v.recipients)
 
+// C02: handing a job to the writer blocks until the job is queued or the context ends: a full queue never drops a log offset
 //@ func (*writer).Schedule(ctx context.Context, offset uint64)
 //@   requires w != nil
+//@   ensures [C02] #lastSelect == 0 || #lastSelect == 1
+//@ ghost-after (*writer).Schedule select
+//@   set #lastSelect := selected
 //@ func (*writer).Send(ctx context.Context, recipients []string, qosses []int32, p *packet.Publish)
 //@   requires w != nil && len(qosses) == len(recipients) && p != nil && p.Header != nil
+//@   ensures [C02] #lastSelect == 0 || #lastSelect == 1
+//@ ghost-after (*writer).Send select
+//@   set #lastSelect := selected
 
 // A-LOG: an entry read back from the message log is a publish that was appended, and every appended publish has a header
 //@ trusted func (messageLog).Get(l messageLog, offset uint64) (p *packet.Publish, err error)
@@ -414,6 +462,7 @@ package wasp
 //@   records #processCalls := old(#processCalls) + 1
 //@   records #lastProcessed := pkt
 //@   records #lastProcessedNilWriter := c == nil
+//@   records #lastProcessErr := err
 
 //@ pred wf_setup(s *setupWorker) := s != nil && s.decoder != nil && s.encoder != nil && s.authHandler != nil && s.state != nil && s.local != nil && s.manager != nil && wf_manager(s.manager)
 
@@ -454,6 +503,8 @@ package wasp
 // C11: the session goes on unless reading failed or Process reported an error; DISCONNECT is remembered as a clean end
 //@   ensures [C11] ok ==> #processCalls == old(#processCalls) + 1
 //@   ensures [C11] #decodes == old(#decodes) + 1 && #processCalls <= old(#processCalls) + 1
+// C13: a DISCONNECT packet (Process answers ErrSessionDisconnected) marks the session as cleanly ended, so that no will is sent
+//@   ensures [C13] #processCalls == old(#processCalls) + 1 && #lastProcessErr == ErrSessionDisconnected ==> session.Disconnected && !ok
 
 // the per-connection loop: every processed packet re-arms the keep-alive deadline; when the loop ends the session is torn down
 //@ loop (*connectionWorker).serve#1
@@ -557,3 +608,10 @@ package wasp
 //@   requires lms_wf(s)
 //@ loop (*lockedMapState).ListSessions#1
 //@   invariant lms_wf(s) && rlocked(s.mtx)
+
+// ---- grpc.go: the receiving side of cross-node distribution (C14) ---------------------------------------------------------------
+// a message scheduled by another node is appended to THIS node's log exactly once and never forwarded again
+//@ func (*mqttServer).ScheduleMessage(ctx context.Context, r *api.ScheduleMessageRequest) (resp *api.ScheduleMessageResponse, err error)
+//@   requires s != nil && s.storage != nil && r != nil
+//@   ensures [C14] #appends == old(#appends) + 1 && #lastAppended == r.Message && #calls == old(#calls)
+//@   ensures [C14] err == nil <==> #appendFails == old(#appendFails)
